@@ -108,7 +108,9 @@ def gen_pipeline_case(rng, i, c03_bias=False, many_iters=False):
     if flat_centroid:
         import math
         lf = rng.choice(leaves)
-        v = rng.choice([0.1, 1.0 / 3.0, 7.3, math.log2(1.0 + 1.0e6 / 37.0)])
+        v = rng.choice([0.1, 1.0 / 3.0, 7.3, math.log2(1.0 + 1.0e6 / 37.0),
+                        math.log2(1.0 + 1.0e6 / rng.randint(8, 70)),
+                        rng.uniform(0.05, 14.0)])
         mp.leaf_mean[lf] = mp.leaf_mean[lf] * 0.0 + v
         mp.leaf_sum[lf] = mp.leaf_mean[lf] * mp.leaf_n[lf]
         label.append('flat-centroid')
@@ -117,12 +119,32 @@ def gen_pipeline_case(rng, i, c03_bias=False, many_iters=False):
         # query rows constant and NON-zero over every marker: a low-depth
         # cell with one count per gene (raw) / a flat log2CPM profile
         import math
+        # every flat row gets its OWN constant (raw: one count per gene plus a
+        # pile of counts on a gene that is no marker anywhere, so the CPM of
+        # the markers is 1e6/(n_genes + pile)): whether an unstable formula
+        # cancels to a negative number depends on the value and on the number
+        # of sampled genes, so a case should try many (value, n) pairs
+        in_marker = set(g for m in mp.markers.values() for g in m)
+        nonmarker = [c for c, g in enumerate(mp.query_genes)
+                     if g not in in_marker]
         for r in range(X.shape[0]):
             if rng.random() < 0.6:
-                X[r, :] = 1.0 if normalization == 'raw' else rng.choice(
-                    [0.1, 1.0 / 3.0, 7.3, math.log2(1.0 + 1.0e6 / 11.0)])
-                if rng.random() < 0.3:
-                    X[r, rng.randrange(X.shape[1])] += 2.0
+                if normalization == 'raw':
+                    X[r, :] = 1.0
+                    u = rng.random()
+                    if u < 0.6 and nonmarker:
+                        X[r, rng.choice(nonmarker)] += float(
+                            rng.randint(1, 60))
+                    elif u < 0.8:
+                        X[r, rng.randrange(X.shape[1])] += 2.0
+                else:
+                    X[r, :] = rng.choice(
+                        [0.1, 1.0 / 3.0, 7.3,
+                         math.log2(1.0 + 1.0e6 / 11.0),
+                         math.log2(1.0 + 1.0e6 / rng.randint(8, 70)),
+                         rng.uniform(0.05, 14.0)])
+                    if rng.random() < 0.3:
+                        X[r, rng.randrange(X.shape[1])] += 2.0
         label.append('flat-nonzero-cell')
     if normalization == 'log2CPM':
         qcol = {g: k for k, g in enumerate(mp.query_genes)}
@@ -139,6 +161,22 @@ def gen_pipeline_case(rng, i, c03_bias=False, many_iters=False):
                 X[r, :] = 0.0
                 X[r, rng.randrange(X.shape[1])] = 3.0
                 label.append('one-gene-cell')
+    if normalization == 'raw' and i % 6 == 2:
+        # 'raw' rows that are not counts: non-negative fractions whose rows sum
+        # to LESS THAN 1 (library-size normalised abundances on a panel); CPM
+        # divides by the row sum whatever its size
+        for r in range(X.shape[0]):
+            tot = X[r].sum()
+            if tot > 0:
+                X[r, :] = X[r, :] / tot * rng.choice([0.9, 0.5, 0.03, 1e-3])
+        label.append('raw-rows-sum-lt-1')
+    if normalization == 'raw' and i % 6 == 5:
+        # empty cells (no count at all) among the others: CPM 0, log2(1+0) = 0,
+        # a constant row -> correlation 0 with every leaf (never NaN)
+        for r in range(X.shape[0]):
+            if rng.random() < 0.4 or r == 0:
+                X[r, :] = 0.0
+        label.append('raw-empty-cells')
     sparse = (i % 7 == 5) and normalization == 'raw'
     if sparse:
         # sparse cells: zero on most genes, so that some drawn subsets see a
